@@ -236,6 +236,11 @@ def check_C03(rep, known):
 def check_C13(rep, known):
     life_job(rep, [r'C13\.'], known)
     trace_job(rep, known)
+    # guesses given partly before and partly after a transcription (C10 family, when = split): same start as a fresh OCP
+    recs, st = tlc.generate('ScenShoot', 'ScenShoot.cfg', 'C10', rep.tier, rep.seed, parts=16)
+    recs = [r for r in recs if r['sc'].get('when') == 'split']
+    outs = engine.pool_map('replay_nlp', 'replay', recs)
+    engine.process_results(rep, recs, outs, [r'C10\.start'], known)
     # histories on multi-stage OCPs (set_value of a stage-level parameter and an edit after a transcription)
     recs, st = tlc.generate('ScenStages', 'ScenStages.cfg', 'C12', rep.tier, rep.seed, parts=16)
     recs = [r for r in recs if r['sc']['reset']]
